@@ -69,6 +69,20 @@ func (g *Gen) ctxReturn(res []Val) *Ctx {
 
 // localByName finds the local variable `name` visible at the loop / program point and returns its current value.
 func (g *Gen) localByName(st *State, name string, pos token.Pos) (Val, bool) {
+	if name == "rangelen" && g.curLoop != nil {
+		// the (fixed) length a range loop iterates to: operand of the header comparison `index < len`
+		for _, ins := range g.curLoop.header.Instrs {
+			if b, ok := ins.(*ssa.BinOp); ok && b.Op == token.LSS {
+				if sv, ok := g.env[b.Y]; ok && sv.A == nil {
+					return sv.V, true
+				}
+				if c, ok := b.Y.(*ssa.Const); ok {
+					return g.constVal(c), true
+				}
+			}
+		}
+		return Val{}, false
+	}
 	var best *ssa.Alloc
 	var bestSV *SV
 	var bestExt token.Pos
